@@ -959,6 +959,10 @@ func c18Purity(c *bx.Ctx) {
 			{"DestinationSSRC", func() string { return fmt.Sprintf("%x", p.DestinationSSRC()) }},
 			{"MarshalSize", func() string { return fmt.Sprint(p.MarshalSize()) }},
 		}
+		if strings.HasPrefix(v.Shape, "big:") && !c.Thorough() {
+			// formatting 64 KiB+ values is quadratic (repeated concatenation): thorough tier only
+			steps = []step{steps[0], steps[1], steps[3], steps[4], steps[6], steps[7]}
+		}
 		first := map[string]string{}
 		filled := false
 		for i, st := range steps {
